@@ -325,9 +325,11 @@ func init() {
 		ID: "C04",
 		Rule: "case = a generated closed-form program (nesting of functions, arrows, blocks, loops, catch clauses, classes with methods/fields/static blocks; names drawn from a pool of 5 to force shadowing; use-before-declaration; hoisting through sibling and nested blocks; parenthesised lists that are or are not arrow heads; destructuring declarations) in a random spelling x Options{WhileToFor}; " +
 			"the generator's own ECMAScript scope resolver labels every identifier token with its binding; every declared root Var of the library tree gets a fresh name, the printed program is lexed and its identifier tokens are aligned with the generator's: same binding <=> same fresh name, unbound names unchanged and present in the outermost Undeclared list, Uses == number of printed occurrences, renamed program accepted. non-trivial = every accepted program; distinct by source",
-		Assume: []string{"function declarations are generated at function/module top level only; parameter defaults are literals (no forward references between parameters, no dependence on the parameter/body environment split)",
+		Assume: []string{"function declarations hoist to the enclosing function, also from nested blocks and case clauses (the statement's reading)",
+			"parameter defaults mention outer variables but never a parameter of the same function; destructuring defaults are literals; a name the defaults mention is declared by the body at function level only in its first statements or not at all (recorded known findings param-default-use-vs-body-*)",
+			"the block that is the body of a for statement declares its lexical names first, with initialisers that mention none of them, and never a name the head declares (recorded known findings for-head-*)",
 			"object and pattern keys never coincide with pool names and no shorthand properties are generated, so that printing after renaming keeps the identifier-token sequence",
-			"class expressions in random programs do not reference their own name (recorded known finding, probed individually)", "no regular expression literals (the printed program is lexed with js.Lexer)"},
+			"class expressions in random programs do not reference their own name (recorded known finding, probed individually)", "no regular expression literals (the printed program is lexed with js.Lexer)", "no module items (import/export) and no with statement"},
 		Required: []string{"programs", "identifiers", "bindings", "probes"},
 		Streams: []fw.Stream{
 			{Name: "probes", Quick: len(c04Probes), Thorough: len(c04Probes), Run: c04Probe},
